@@ -225,6 +225,91 @@ def closure_negates_exists(P, g, call):
     return None
 
 
+
+def write_skip_analysis(P, f):
+    """FileWriter::write_typescript_file: can it return Ok without having written?  -> (status, detail) with status one of
+    'shape' (anchors lost), 'always' (every Ok return is preceded by the write), 'justified' (the write is skipped only when the file on disk
+    equals the new content as a whole), 'unjustified' (skipped under some other condition)"""
+    wr = {c.bb for c in f.calls if strip_generics(c.path) in ("std::fs::write", "std::fs::File::create", "std::io::Write::write_all") and c.bb in f.reach_blocks}
+    oks_ = []
+    for b in sorted(f.reach_blocks):
+        for st in f.blocks[b]["stmts"]:
+            rv = st.get("rv")
+            if rv and st["lhs"]["l"] == 0 and not st["lhs"].get("p") and rv["k"] == "aggr" and rv.get("variant") == "Ok":
+                oks_.append(b)
+    if not wr or not oks_:
+        return "shape", "%d write calls, %d Ok returns" % (len(wr), len(oks_))
+
+    def avoiding(start):
+        seen_ = {start}
+        work_ = [start]
+        while work_:
+            b_ = work_.pop()
+            if b_ in wr:
+                continue
+            for (_, t_) in f.succ_edges(b_):
+                if t_ not in seen_:
+                    seen_.add(t_)
+                    work_.append(t_)
+        return seen_
+    if not any(b in avoiding(0) for b in oks_):
+        return "always", "every Ok return is preceded by the write"
+
+    def strip_(o):
+        while o[0] == "proj" or (o[0] == "call" and o[1].name in ("as_str", "as_deref", "as_ref", "deref", "borrow", "as_bytes", "ok", "as_slice") and o[1].args):
+            o = o[1] if o[0] == "proj" else o[1].fn.origin(o[1].args[0])
+        return o
+
+    def whole_content_equality(g, o):
+        o = strip_(o)
+        if o[0] == "call" and o[1].name in ("eq", "ne") and len(o[1].args) == 2:
+            sides = [strip_(g.origin(a_)) for a_ in o[1].args]
+            sides = [strip_(g.origin(x[1]["ops"][0])) if x[0] == "aggr" and x[1].get("variant") in ("Some", "Ok") and x[1].get("ops") else x for x in sides]
+            kinds = set()
+            for x in sides:
+                if x[0] in ("arg", "upvar"):
+                    kinds.add("param")
+                elif x[0] == "call" and strip_generics(x[1].path) in ("std::fs::read_to_string", "std::fs::read"):
+                    kinds.add("disk")
+            if kinds == {"param", "disk"} or (g is not f and "param" in kinds and len(sides) == 2 and all(x[0] in ("arg", "upvar") for x in sides)):
+                return "eq" if o[1].name == "eq" else "ne"
+        return None
+
+    # a skipped write is sound only when what is on disk equals the new content as a whole (the property compares contents): accept a branch on
+    # `read_to_string(path) == content`, directly or inside an is_ok_and/is_some_and closure; any other skip condition (line-wise, prefix,
+    # length, mtime, "differs only in ...") is not shown to imply equal content
+    justified = True
+    why = []
+    for wb in sorted(wr):
+        for (bb, keep, lose) in f.filter_branches(0, wb):
+            for lab in lose:
+                tgt_ = dict(f.succ_edges(bb))[lab]
+                if not any(b in avoiding(tgt_) for b in oks_):
+                    continue
+                o, outcome = f.cond_struct(bb, lab)
+                neg = False
+                while o[0] == "un" and o[1] == "Not":
+                    o = o[2]
+                    neg = not neg
+                want = (outcome == "true") != neg      # the skip is taken when the (un-negated) condition has this truth value
+                kind = whole_content_equality(f, o)
+                if kind is None and o[0] == "call" and o[1].name in ("is_ok_and", "is_some_and") and len(o[1].args) == 2:
+                    src_ = strip_(f.origin(o[1].args[0]))
+                    co = f.origin(o[1].args[1])
+                    cid = co[1].get("closure") if co[0] in ("aggr", "const") and isinstance(co[1], dict) else None
+                    for g in ([P.fns[cid]] if cid in P.fns else []):
+                        k2 = whole_content_equality(g, g.origin({"copy": {"l": 0, "p": []}}))
+                        if k2 and src_[0] == "call" and strip_generics(src_[1].path) in ("std::fs::read_to_string", "std::fs::read"):
+                            kind = k2
+                if (kind == "eq" and want) or (kind == "ne" and not want):
+                    why.append("bb%d:%s" % (bb, kind))
+                else:
+                    justified = False
+                    why.append("%s=%s" % (f.describe_origin(o)[:60], outcome))
+    if justified and why:
+        return "justified", ",".join(why)
+    return "unjustified", "; ".join(why)[:200]
+
 def check(ctx):
     P = ctx.P
     S = ctx.S
@@ -556,6 +641,17 @@ def check(ctx):
         if not good:
             for f in nr_fns:
                 r2.bad(V(r2.id, f.id, "no-existence-check", "the cache-hit decision of %s: %s" % (short_path(f.id), why), f.file, f.line))
+    # ... and a generation that runs really rewrites: FileWriter::write_typescript_file returns Ok only after fs::write ran, or skips the write
+    # only when the file on disk already equals the new content (the digest is the only other authority on whether output is current)
+    for f in P.find("FileWriter::write_typescript_file"):
+        st_, why_ = write_skip_analysis(P, f)
+        if st_ == "shape":
+            r2.bad(V(r2.id, f.id, "writer-shape", "write_typescript_file: " + why_))
+        elif st_ == "unjustified":
+            r2.bad(V(r2.id, f.id, "ok-without-write", "write_typescript_file can return Ok without having written the file, under a condition that is not a whole-content "
+                     "equality with what is on disk (%s): a skipped write leaves stale content while the run reports success and records the digest" % why_))
+        else:
+            r2.ok("write_typescript_file: %s (%s)" % (st_, why_))
     rules.append(r2)
 
     # ---------------------------------------------------------------- D3
